@@ -401,6 +401,26 @@ theorem askip_of_read : ∀ f,
       | panic m => rfl
       | fuel => rfl
 
+/-- normalising empty maps (compact does not carry their key / value types) keeps the nesting. -/
+theorem need_norm : ∀ v : TVal, (Compact.norm v).need = v.need
+  | .struct fs => by simp [Compact.norm, TVal.need, needF_norm fs]
+  | .list _ xs => by simp [Compact.norm, TVal.need, needL_norm xs]
+  | .set _ xs => by simp [Compact.norm, TVal.need, needL_norm xs]
+  | .map _ _ .nil => by simp [Compact.norm, TVal.need, TPairs.need]
+  | .map _ _ (.cons k v r) => by
+      simp [Compact.norm, Compact.normPairs, TVal.need, TPairs.need, need_norm k, need_norm v, needP_norm r]
+  | .bool _ | .i8 _ | .i16 _ | .i32 _ | .i64 _ | .dbl _ | .bin _ | .uuid _ => by simp [Compact.norm]
+where
+  needL_norm : ∀ xs : TVals, (Compact.normVals xs).need = xs.need
+    | .nil => rfl
+    | .cons v vs => by simp [Compact.normVals, TVals.need, need_norm v, needL_norm vs]
+  needF_norm : ∀ fs : TFields, (Compact.normFields fs).need = fs.need
+    | .nil => rfl
+    | .cons _ v r => by simp [Compact.normFields, TFields.need, need_norm v, needF_norm r]
+  needP_norm : ∀ kvs : TPairs, (Compact.normPairs kvs).need = kvs.need
+    | .nil => rfl
+    | .cons k v r => by simp [Compact.normPairs, TPairs.need, need_norm k, need_norm v, needP_norm r]
+
 theorem compactPrims_like : compactPrims.LikeCompact :=
   ⟨rfl, rfl, rfl, rfl, fun _ _ _ h => h, fun _ _ _ h => h⟩
 
